@@ -39,5 +39,35 @@ def main():
     return common.run_check(pid, tier, mod.main)
 
 
+def _kill_descendants():
+    # leave no worker / server process of the driven scenarios behind
+    import signal
+    me = os.getpid()
+    kids = {}
+    for d in os.listdir('/proc'):
+        if d.isdigit():
+            try:
+                with open(f'/proc/{d}/stat') as f:
+                    ppid = int(f.read().rsplit(')', 1)[1].split()[1])
+                kids.setdefault(ppid, []).append(int(d))
+            except Exception:
+                pass
+    todo, seen = [me], set()
+    while todo:
+        p = todo.pop()
+        for c in kids.get(p, []):
+            if c not in seen:
+                seen.add(c)
+                todo.append(c)
+    for c in seen:
+        try:
+            os.kill(c, signal.SIGKILL)
+        except Exception:
+            pass
+
+
 if __name__ == '__main__':
-    sys.exit(main())
+    rc = main()
+    sys.stdout.flush()
+    _kill_descendants()
+    os._exit(rc)          # worker threads of the driven scenarios that cannot be stopped must not keep us alive
